@@ -145,30 +145,75 @@ def load_known():
     return known, fixed
 
 
+def fatal_frame(log):
+    """First frame of go-openapi/analysis in the fatal crash report of a dead worker."""
+    kind = "process death"
+    for ln in log.splitlines():
+        if ln.startswith("fatal error:"):
+            kind = ln.strip()
+            break
+    for ln in log.splitlines():
+        t = ln.strip()
+        if t.startswith("github.com/go-openapi/analysis"):
+            fn = t.split("(")[0].split("/")[-1]
+            return kind + " in " + fn
+    return kind
+
+
 def run_workers(worker, prop, tier, n, scratch, seed, deadline, extra_args=""):
-    procs = []
+    """Run the n shards; a shard whose process dies is attributed through its journal and restarted without that input."""
     rdir = os.path.join(scratch, "replays")
-    for i in range(n):
-        out = os.path.join(scratch, "res.%d.json" % i)
-        cmd = [worker, "-prop", prop, "-tier", tier, "-shard", str(i), "-n", str(n), "-out", out, "-replays", rdir, "-seed", str(seed)]
-        if deadline:
-            cmd += ["-deadline", "%ds" % deadline]
-        if extra_args:
-            cmd += ["-args", extra_args]
-        env = dict(ENV)
-        env["GOMAXPROCS"] = "1"
-        env["MC_SITES"] = os.path.join(scratch, "sites.json")
-        log = open(os.path.join(scratch, "log.%d.txt" % i), "w")
-        procs.append((i, out, subprocess.Popen(cmd, env=env, stdout=log, stderr=subprocess.STDOUT), log))
-    results, crashed = [], []
-    for i, out, p, log in procs:
-        rc = p.wait()
-        log.close()
-        if rc != 0 or not os.path.exists(out):
-            crashed.append((i, rc, open(os.path.join(scratch, "log.%d.txt" % i)).read()[-4000:]))
-            continue
-        results.append(json.load(open(out)))
-    return results, crashed
+    results, crashed, fatals = [], [], []
+    skips = {i: [] for i in range(n)}
+    pending = list(range(n))
+    attempt = 0
+    while pending and attempt < 4:
+        attempt += 1
+        procs = []
+        for i in pending:
+            out = os.path.join(scratch, "res.%d.json" % i)
+            if os.path.exists(out):
+                os.remove(out)
+            jr = os.path.join(scratch, "journal.%d.json" % i)
+            if os.path.exists(jr):
+                os.remove(jr)
+            cmd = [worker, "-prop", prop, "-tier", tier, "-shard", str(i), "-n", str(n), "-out", out, "-replays", rdir, "-seed", str(seed), "-journal", jr]
+            if skips[i]:
+                cmd += ["-skip", ",".join(str(k) for k in skips[i])]
+            if deadline:
+                cmd += ["-deadline", "%ds" % deadline]
+            if extra_args:
+                cmd += ["-args", extra_args]
+            env = dict(ENV)
+            env["GOMAXPROCS"] = "1"
+            env["MC_SITES"] = os.path.join(scratch, "sites.json")
+            log = open(os.path.join(scratch, "log.%d.txt" % i), "w")
+            procs.append((i, out, jr, subprocess.Popen(cmd, env=env, stdout=log, stderr=subprocess.STDOUT), log))
+        pending = []
+        for i, out, jr, p, log in procs:
+            rc = p.wait()
+            log.close()
+            if rc == 0 and os.path.exists(out):
+                results.append(json.load(open(out)))
+                continue
+            tail = open(os.path.join(scratch, "log.%d.txt" % i), errors="replace").read()
+            j = None
+            try:
+                j = json.load(open(jr))
+            except Exception:
+                pass
+            if j is None:
+                crashed.append((i, rc, tail[-4000:]))
+                continue
+            v = j["violation"]
+            v["signature"] = "fatal crash of the process: " + fatal_frame(tail)
+            v["what"] = "the worker process died while running this execution: " + tail[:1500]
+            fatals.append(v)
+            skips[i].append(j["k"])
+            pending.append(i)
+    # shards still dying after the last attempt: their fatal executions are reported, the shard is incomplete
+    incomplete = sorted(set(pending))
+    return results, crashed, fatals, incomplete
 
 
 def merge(results):
@@ -209,8 +254,21 @@ def check(prop, tier, nworkers, keep, deadline):
         if spec_ is None:
             die("unknown property " + prop)
         worker, info = prepare(scratch, sync=spec_.get("sync", False))
-        results, crashed = run_workers(worker, prop, tier, nworkers, scratch, seed, deadline)
+        results, crashed, fatals, incomplete = run_workers(worker, prop, tier, nworkers, scratch, seed, deadline)
         m = merge(results)
+        if incomplete:
+            m["exhaustive"] = False
+            m["caps"].append("shards %s not completed: their worker process died on %d different executions (each reported)" % (incomplete, len(fatals)))
+        # executions that killed a worker: written as replay files, grouped by signature like any violation
+        for v in fatals:
+            import hashlib
+            body = json.dumps(v, indent=1)
+            fp = os.path.join(scratch, "replays", prop, "fatal-%s.json" % hashlib.sha1(body.encode()).hexdigest()[:12])
+            os.makedirs(os.path.dirname(fp), exist_ok=True)
+            open(fp, "w").write(body)
+            g = m["violations"].setdefault(v["signature"], {"signature": v["signature"], "count": 0, "what": v["what"], "replays": []})
+            g["count"] += 1
+            g["replays"].append(fp)
         race_v = None
         if spec_.get("race_pass"):
             rp = race_pass(scratch, prop, tier, seed)
@@ -245,7 +303,7 @@ def check(prop, tier, nworkers, keep, deadline):
                 ok = 5
             for _ in range(5 if ok == 0 else 0):
                 r = subprocess.run([worker, "-replay", rp], env=dict(ENV, MC_SITES=os.path.join(scratch, "sites.json")), stdout=subprocess.PIPE, stderr=subprocess.STDOUT, text=True)
-                if r.returncode == 1:
+                if r.returncode == 1 or (sig.startswith("fatal crash") and r.returncode not in (0, 1) and "fatal error" in r.stdout):
                     ok += 1
             os.makedirs(rdst, exist_ok=True)
             dst = os.path.join(rdst, os.path.basename(rp))
@@ -304,7 +362,7 @@ def check(prop, tier, nworkers, keep, deadline):
             print(ln)
         if shown > 12:
             print("mc: ... %d more violation signatures not shown (all replay files are under %s)" % (shown - 12, rdst))
-        if m["execs"] == 0:
+        if m["execs"] == 0 and not new_v:
             die("no execution was run")
         code = 1 if new_v else 0
     finally:
